@@ -1,5 +1,6 @@
 import Aiorpcx.C05.Props
 import Aiorpcx.C05.Probe
+import Aiorpcx.C05.Grid
 import Aiorpcx.Facts.C05
 /-!
 # C05 — the tie to the current source tree
@@ -33,6 +34,15 @@ theorem facts_loop_table_quiet : loopQuiet Facts.C05.loopTable = true := by deci
 /-- … and the model's loop, with quiet bookkeeping, ends each of them the way the session did -/
 theorem facts_loop_table_reproduced :
     Facts.C05.loopTable.all (LoopRow.reproducedBy Facts.C05.guards) = true := by decide +kernel
+
+/-- **whatever explains the observations is adequate**: the observed tables contain the key
+probes with the outcomes of a correct tree, hence *any* guards under which the model reproduces
+them are adequate (`Grid.explains_adequate`) — the derivation `deriveGuards` is a convenience, not
+part of the argument -/
+theorem facts_pin_adequacy (g : Guards)
+    (h : Facts.C05.probeTable.all (Row.reproducedBy g) = true)
+    (hl : Facts.C05.loopTable.all (LoopRow.reproducedBy g) = true) : adequate g = true :=
+  explains_adequate Facts.C05.probeTable Facts.C05.loopTable g (by decide +kernel) (by decide +kernel) h hl
 
 /-- the theorems, instantiated with the guards of the tree as it is now -/
 theorem only_protocol_error_current (c : Conn) (o : LoadsOutcome) :
